@@ -3,5 +3,6 @@ SPECIFICATION Spec
 CONSTANTS
   SingleContexts = {"func"}
   PairContexts = {}
-INVARIANTS ObsReport ObservedCoversIR
+  CheckObs = TRUE
+INVARIANTS WellFormed
 CHECK_DEADLOCK FALSE
